@@ -9,10 +9,10 @@ package main
 
 import (
 	"fmt"
-	"math/big"
 	"go/ast"
 	"go/token"
 	"go/types"
+	"math/big"
 	"sort"
 	"strings"
 
@@ -716,7 +716,7 @@ func c10Compaction(p *Prog, x *Exec, sp readerSpec, ds *Event) (bool, string, st
 						isKeptExit = true
 					}
 				})
-				if isKeptExit && len(c.Val.T) == 1 && (c.Root != "" && strings.HasSuffix(stripVersions(ds.Idx[0]).String(), "") ) {
+				if isKeptExit && len(c.Val.T) == 1 && (c.Root != "" && strings.HasSuffix(stripVersions(ds.Idx[0]).String(), "")) {
 					// the reader's counter root
 					rootOK := false
 					stripVersions(ds.Idx[0]).walkAtoms(func(a *Atom) {
